@@ -46,6 +46,45 @@ CLAIMS = {
         "note": _TRUST + "http.client's own request/response state machine is trusted for bytes arriving after checkout.",
         "technique": "static analysis: path-sensitive typestate + decision-table extraction by abstract interpretation, who-may-call queries",
     },
+    "C04": {
+        "text": ("Decides the structure behind the retry guarantees: no Retry method but __init__ stores to self and no driver stores to a "
+                 "policy attribute (caller's object never mutated); on every path each resend (3 in the pool, 1 in the manager) carries a "
+                 "policy produced by exactly one increment() after the attempt; new() carries every constructor parameter; "
+                 "get_backoff_time returns 0 or max(0, min(backoff_max, e)), Retry-After is clamped at 0 and only those values reach "
+                 "time.sleep; is_retry's complete decision table equals allowed and (forced or (total and respect and has and status in "
+                 "{413,429,503})); retries=False re-raises before any counter is touched; every branch of increment spends total and its "
+                 "own counter (when not None), returns the new object after testing it for exhaustion; a read error is re-raised unless "
+                 "read is not False, method known and allowed (both directions); ProtocolError/ReadTimeoutError select the gated read "
+                 "branch, consulted before `other`; default allow-list is idempotent; Retry-After honoured only under "
+                 "respect_retry_after_header and a response. Declined: counter arithmetic (< vs <=, exact attempt counts)."),
+        "note": _TRUST + "F11 (proxy classification reads state reset by close()) is a known finding; error->category mapping for SSLError after send follows upstream ('other').",
+        "technique": "static analysis: provenance tags through abstract interpretation of the request drivers, decision-table extraction on Retry.is_retry/increment, min/max shape algebra, write-set queries",
+    },
+    "C05": {
+        "text": ("Decides which policy is in effect and that following a redirect is charged to it: each Retry.from_int on a request path "
+                 "receives the caller's retries and redirect flag and, as default, the policy configured on the serving object "
+                 "(self.retries in the pool, the pool's policy in the manager); every resend to a redirect location carries an "
+                 "increment(response=...) result and occurs only with the caller's redirect flag true, which is passed on unchanged; the "
+                 "manager forces redirect=False and assert_same_host=False into the pool-level call; Retry(redirect=False)/total=False "
+                 "give budget 0 and raise_on_redirect False; on status==303 - and only there - the resend is GET, body None, headers "
+                 "through _prepare_for_method_change (which drops the content headers); on exhaustion MaxRetryError is re-raised only "
+                 "under raise_on_*, after drain_conn(), else the response is returned; the manager resends to urljoin(url, location); "
+                 "REDIRECT_STATUSES is {301,302,303,307,308}. Declined: counting redirects against the numeric budget."),
+        "note": _TRUST + "F4 (manager ignored constructor-level retries) was repaired in /repo.",
+        "technique": "static analysis: sibling cross-check of both urlopen drivers by abstract interpretation with provenance tags and recorded decisions",
+    },
+    "C06": {
+        "text": ("Decides that the credential strip dominates every cross-origin resend of PoolManager.urlopen: when the removal set is "
+                 "non-empty the origin of the very target that is resent to is tested against the serving pool; when that test is false the "
+                 "headers passed on are a copy from which each header whose lower-cased name is in the set was removed (loop over all "
+                 "outgoing headers, no early exit), other headers kept, and that copy is the slot splatted into the resend; the policy's "
+                 "set is lower-cased at construction and only set there; defaults contain Authorization, Cookie, Proxy-Authorization; "
+                 "is_same_host compares (scheme, host, port) from parse_url(url) with the pool's, host through the same normaliser, "
+                 "default ports explicit; in the pool every request step is preceded by `not assert_same_host or is_same_host(url)` and "
+                 "resends forward assert_same_host unchanged. Declined: header values; correctness of parse_url's host (C14)."),
+        "note": _TRUST,
+        "technique": "static analysis: sanitizer-dominates-sink by abstract interpretation with provenance tags; read-set of the origin comparison",
+    },
     "C16": {
         "text": ("Deliberately narrow. Decides only the storage discipline behind the multimap: every access to the storage dict uses a "
                  "lower-cased key; every list stored is built in that statement, copies build per-key fresh lists and no method returns a "
@@ -94,4 +133,4 @@ CLAIMS = {
 _PENDING = "check not built yet in this session (static rules designed in DESIGN.md section 5); will be claimed once its rules run clean"
 
 NOT_APPLICABLE = {pid: _PENDING for pid in
-                  ["C04", "C05", "C06", "C07", "C08", "C09", "C10", "C11", "C12", "C13", "C14", "C15", "C19"]}
+                  ["C07", "C08", "C09", "C10", "C11", "C12", "C13", "C14", "C15", "C19"]}
